@@ -6,6 +6,7 @@ CONSTANTS
   Mode = "geometry"
   GeomRefs = {"allC", "allG", "CG"}
   MaxFrags = 1
+  DistMode = "zero"
   Variant = "totals_per_read"
 INVARIANT Inv_C14_OnTarget
 INVARIANT Inv_C14_DoveSafe
